@@ -19,3 +19,26 @@ pub fn verif_slice_to_incl<'a, T>(s: &'a [T], i: usize) -> (r: &'a [T])
     requires i < s@.len()
     ensures r@ == s@.subrange(0, i + 1)
 { &s[..=i] }
+// ---- trusted shims for utils::make_relative_path ----
+pub open spec fn views(v: Seq<&str>) -> Seq<Seq<char>> { v.map_values(|s: &str| s@) }
+//# assumes: s.split(&['/', '\\'][..]).filter(|x| !x.is_empty()).collect() is the list of non-empty maximal runs of characters other than '/' and '\\' (spec fn components)
+#[verifier::external_body]
+pub fn verif_path_components<'a>(s: &'a str) -> (r: Vec<&'a str>) ensures views(r@) == components(s@)
+{ s.split(&['/', '\\'][..]).filter(|x| !x.is_empty()).collect() }
+//# assumes: v.sort_by_key(|x| x.len()) is a stable sort by list length: a permutation, ordered by length, and for two lists swapped exactly when the second is strictly shorter
+#[verifier::external_body]
+pub fn verif_sort_by_len<'a>(v: &mut Vec<Cow<'a, [&'a str]>>)
+    ensures final(v)@.len() == old(v)@.len(), final(v)@.to_multiset() == old(v)@.to_multiset(),
+        forall|i: int, j: int| 0 <= i <= j < old(v)@.len() ==> cow_strs(#[trigger] final(v)@[i]).len() <= cow_strs(#[trigger] final(v)@[j]).len(),
+        old(v)@.len() == 2 ==> final(v)@ == (if cow_strs(old(v)@[1]).len() < cow_strs(old(v)@[0]).len() { seq![old(v)@[1], old(v)@[0]] } else { old(v)@ }),
+{ v.sort_by_key(|x| x.len()) }
+//# assumes: opt.map(|x| x.len()).unwrap_or(0) is the length of the slice, 0 for None
+#[verifier::external_body]
+pub fn verif_opt_slice_len_or0(o: Option<&[&str]>) -> (r: usize) ensures o is None ==> r == 0, o matches Some(s) ==> r == s@.len() { o.map(|x| x.len()).unwrap_or(0) }
+//# assumes: repeat(s).take(n).collect::<String>() is s written n times; slice.join(sep) writes the strings with sep between them; "..".into() / String from &str copies the characters
+#[verifier::external_body]
+pub fn verif_repeat_collect(s: &str, n: usize) -> (r: String) ensures r@ == repeat_str(s@, n as nat) { std::iter::repeat(s).take(n).collect() }
+#[verifier::external_body]
+pub fn verif_join(v: &[&str], sep: &str) -> (r: String) ensures r@ == join_spec(views(v@), sep@) { v.join(sep) }
+#[verifier::external_body]
+pub fn verif_string_from(s: &str) -> (r: String) ensures r@ == s@ { s.into() }
